@@ -2,7 +2,7 @@
 import os
 import re
 
-SNDBUFS = [None, 4096, 8192, 16384, 65536]  # None = the real system value
+SNDBUFS = [None, 4096, 8192, 16384, 65536, 4099, 9001, 20003]  # None = the real system value; odd values make SO_SNDBUF-40 a non-multiple of 8
 
 
 def crash_signature(pid, job, rc, err):
@@ -57,7 +57,7 @@ def c01_env(b):
 
 def c01_plan(tier, seed):
     if tier == "quick":
-        return jobs("os-debug", "c01", 15, c01_env, timeout=300) + \
+        return jobs("os-debug", "c01", 16, c01_env, timeout=300) + \
             jobs("inproc-debug", "c01", 3, None, {"cap": 1 << 20, "huge": 0}, timeout=300)
     return jobs("os-debug", "c01", 40, c01_env, timeout=1500) + \
         jobs("os-release", "c01", 10, c01_env, timeout=1500) + \
@@ -412,7 +412,7 @@ def c12_require(agg):
 
 def c13_plan(tier, seed):
     out = []
-    for sb in (8192, 16384):
+    for sb in (8192, 16387):
         out += jobs("os-debug", "c13", 10, lambda b, sb=sb: {"IPCMON_SNDBUF": sb, "IPCMON_POISON": "1"}, timeout=3000)
     return out
 
@@ -525,7 +525,7 @@ def c18_plan(tier, seed):
             out.append({"variant": "os-asan", "family": family, "batch": b, "nbatch": nbatch, "env": e, "opts": dict(opts), "timeout": 3000})
 
     sb = lambda b: ({"IPCMON_SNDBUF": SNDBUFS[b % len(SNDBUFS)]} if SNDBUFS[b % len(SNDBUFS)] else {})
-    asan("c01", range(5) if q else range(15), 15, sb, {"cap": 1 << 20 if q else 4 << 20, "huge": 0})
+    asan("c01", range(8) if q else range(16), 16, sb, {"cap": 1 << 20 if q else 4 << 20, "huge": 0})
     asan("c04", range(3) if q else range(9), 9, lambda b: {"IPCMON_SNDBUF": [8192, 16384, 8192][b % 3]}, {"cases": 25 if q else 300}, leaks=0)
     asan("c05", range(2) if q else range(6), 6, {}, {"cases": 25 if q else 300, "huge": 0, "cap": 1 << 18})
     asan("c13", [2, 5, 9] if q else range(10), 10, {"IPCMON_SNDBUF": 8192}, {} if q else {"all": 1})
@@ -962,7 +962,7 @@ PROPS = {
         "technique": "runtime monitoring: differential payload oracle over boundary-dense workloads with interposer-faked SO_SNDBUF and receive-buffer poisoning",
         "require": c01_require,
         "rule": "streams of messages on bytes and typed channels; lengths = every length 0..64, every length within "
-                "+-16 of k*F1 (k=1..4) and F1+j*F2 (j=1..3) for each reported SO_SNDBUF in {real,4096,8192,16384,65536}, "
+                "+-16 of k*F1 (k=1..4) and F1+j*F2 (j=1..3) for each reported SO_SNDBUF in {real,4096,8192,16384,65536,4099,9001,20003}, "
                 "powers of two +-1, log-uniform random lengths and one 64 MiB message; received through recv / try_recv / "
                 "try_recv_timeout / receiver set, sender in a thread or an exec'd process; a case is one message, distinct by "
                 "(channel kind, length class = boundary name and offset or log2 bucket, packets per message, reported "
